@@ -231,6 +231,7 @@ class C13:
         pre = self.snapshot()
         st, events, _ = faults.run_child(self.make_op(op, random.Random(case["rseed"] + "/op"), files), dict(mode="count", watch=self.dd), mods)
         new = self.snapshot()
+        new_sizes = {os.path.getsize(os.path.join(self.hd, f)) for f in os.listdir(self.hd) if f.endswith(".json")}
         if st != "done":
             rec.violation(f"{op}/fault-free-run/{st}", case, None)
             return
@@ -244,6 +245,8 @@ class C13:
             plans = [dict(k=k, mode="kill")] if where != "open-read" else []
             if where == "open-write":
                 plans.append(dict(k=k, mode="kill-after-open"))
+            if where in ("os.rename", "os.remove"):
+                plans.append(dict(k=k, mode="kill-after"))
             plans += [dict(k=k, mode="fail", err=e) for e in ERRS]
             if where == "write":
                 plans += [dict(k=k, mode="partial", prefix=p) for p in PREFIXES]
@@ -259,9 +262,31 @@ class C13:
                     continue
                 if fired:
                     rec.count("faults_fired")
-                    rec.count({"kill": "kill_points", "kill-after-open": "kill_points", "fail": "failing_calls", "partial": "partial_writes"}[plan["mode"]])
+                    rec.count({"kill": "kill_points", "kill-after-open": "kill_points", "kill-after": "kill_points", "fail": "failing_calls", "partial": "partial_writes"}[plan["mode"]])
                 post = self.snapshot()
                 self.judge(op, pre, new, post, rec, dict(case, only=fault), dict(fault, mode=plan["mode"]))
+        # resource-limit faults: the file system refuses to let any file grow beyond N bytes (short write, then EFBIG).
+        # N is taken around the sizes of the files the fault-free run produced, so every staged file is cut at its
+        # start, in the middle, one byte before its end and at the block sizes Python's buffers flush with.
+        sizes = sorted({os.path.getsize(os.path.join(self.template, f)) for f in os.listdir(self.template)} | new_sizes)
+        limits = {0, 1, 100}
+        for sz in sizes:
+            limits.update({sz // 2, max(sz - 1, 0)})
+        limits.update(b for b in (4096, 8192, 16384) if sizes and b < max(sizes) * 2)
+        for lim in sorted(limits):
+            fault = {"k": 0, "where": "write", "target": "*", "mode": f"fsize-{lim}"}
+            if only and (only["k"], only["mode"]) != (fault["k"], fault["mode"]):
+                continue
+            self.restore()
+            st, _, _ = faults.run_child(self.make_op(op, random.Random(case["rseed"] + "/op"), files), dict(watch=self.dd, mode="count", fsize=lim), mods)
+            rec.case(nontrivial=(op, tuple(len(cmds_of(v[1])) if v[0] == "ok" else -1 for v in pre.values()), "fsize", min(lim, 9999) // 512))
+            if st == "timeout":
+                rec.violation(f"{op}/write/file-size-limit/operation-hangs", dict(case, only=fault), None)
+                continue
+            rec.count("faults_fired")
+            rec.count("file_size_limit_runs")
+            post = self.snapshot()
+            self.judge(op, pre, new, post, rec, dict(case, only=fault), dict(fault, mode="file-size-limit"))
 
     # ------------------------------------------------------------------ SQLite via strace
     def run_sqlite(self, case, rec):
